@@ -234,3 +234,15 @@ Definition enc_hdr (be : bool) (asz : N) (h : hdr_rec) : list byte :=
   ++ enc_value (fmt_of (h_cnt_enc h)) asz be (h_cnt h)
   ++ concat (map (fun r => enc_value (fmt_of (h_tbl_enc h)) asz be (fst r)
                             ++ enc_value (fmt_of (h_tbl_enc h)) asz be (snd r)) (h_rows h)).
+
+(* ------------------------------------------------------------------ table search *)
+(* index of the last row whose location is <= a, 0 when there is none *)
+Fixpoint last_le_from (locs : list N) (a : N) (i best : nat) : nat :=
+  match locs with
+  | [] => best
+  | l :: r => last_le_from r a (S i) (if l <=? a then i else best)
+  end.
+Definition bs_index (locs : list N) (a : N) : nat := last_le_from locs a 0 0.
+
+Definition strictly_sorted (locs : list N) : Prop :=
+  forall i j, (i < j)%nat -> (j < length locs)%nat -> nth i locs 0 < nth j locs 0.
